@@ -253,8 +253,23 @@ func c17Compare(rows dataPoints, labels []string, wantLabels map[string]bool, wa
 	return
 }
 
+// c17Data calls the package-private data(); a panic becomes an error.
+func c17Data(p *Plot) (rows dataPoints, labels []string, err error) {
+	defer func() {
+		if x := recover(); x != nil {
+			err = fmt.Errorf("panic: %v", x)
+		}
+	}()
+	return p.data()
+}
+
 // c17Plot adds rs in the given arrival order and returns the plot.
-func c17Plot(rs []c17Res, order []int, opts ...Opt) (*Plot, error) {
+func c17Plot(rs []c17Res, order []int, opts ...Opt) (_ *Plot, err error) {
+	defer func() {
+		if x := recover(); x != nil {
+			err = fmt.Errorf("panic: %v", x)
+		}
+	}()
 	p := New(opts...)
 	for _, i := range order {
 		r := rs[i].result()
@@ -434,6 +449,10 @@ func c17SamePt(a, b lttb.Point) bool { return a.X == b.X && c17Close(a.Y, b.Y) }
 func c17CheckSampled(orig, got []lttb.Point, gerr error, threshold int) (bad []c17Finding) {
 	add := func(k, f string, a ...any) { bad = append(bad, c17Finding{"lttb:" + k, fmt.Sprintf(f, a...)}) }
 	count := len(orig)
+	if gerr != nil && strings.HasPrefix(gerr.Error(), "panic:") {
+		add("panic", "%v", gerr)
+		return
+	}
 	switch {
 	case threshold == 0 || threshold >= count:
 		if gerr != nil {
@@ -570,7 +589,7 @@ func TestC17(t *testing.T) {
 					coll[ji].add([]c17Finding{{"plot:add-error", err.Error()}}, c17Describe(rs, order))
 					continue
 				}
-				rows, labels, err := p.data()
+				rows, labels, err := c17Data(p)
 				if err != nil {
 					coll[ji].add([]c17Finding{{"plot:data-error", err.Error()}}, c17Describe(rs, order))
 					continue
@@ -643,7 +662,7 @@ func TestC17(t *testing.T) {
 				hcoll[hi].add([]c17Finding{{"html:parse", err.Error()}}, ctx)
 				continue
 			}
-			rows, labels, err := p.data()
+			rows, labels, err := c17Data(p)
 			if err != nil {
 				hcoll[hi].add([]c17Finding{{"plot:data-error", err.Error()}}, ctx)
 				continue
@@ -737,12 +756,16 @@ func TestC17(t *testing.T) {
 					dcoll[di].add([]c17Finding{{"plot:add-error", err.Error()}}, pctx)
 					continue
 				}
-				rows, labels, derr := p.data()
+				rows, labels, derr := c17Data(p)
 				wantErr := false
 				for _, s := range series {
 					if th > 0 && th < 3 && len(s) > th {
 						wantErr = true
 					}
+				}
+				if derr != nil && strings.HasPrefix(derr.Error(), "panic:") {
+					dcoll[di].add([]c17Finding{{"lttb:panic", derr.Error()}}, pctx)
+					continue
 				}
 				if derr != nil {
 					if !wantErr {
@@ -814,7 +837,7 @@ func TestC17(t *testing.T) {
 					R.Violation("plot:add-error", ctx+": "+err.Error())
 					continue
 				}
-				rows, labels, err := p.data()
+				rows, labels, err := c17Data(p)
 				if err != nil {
 					R.Violation("plot:data-error", ctx+": "+err.Error())
 					continue
